@@ -45,9 +45,10 @@ def analyse(path: str) -> Dict[str, Any]:
     for node in tree.body:
         tgts = node.targets if isinstance(node, ast.Assign) else [node.target] if isinstance(node, ast.AnnAssign) else []
         val = getattr(node, "value", None)
-        is_map = isinstance(val, ast.Dict) or (isinstance(val, ast.Call) and ast.unparse(val.func).split(".")[-1] in
-                                               ("dict", "defaultdict", "OrderedDict", "WeakKeyDictionary",
-                                                "WeakValueDictionary"))
+        is_map = isinstance(val, (ast.Dict, ast.Set, ast.List)) or (
+            isinstance(val, ast.Call) and ast.unparse(val.func).split(".")[-1] in
+            ("dict", "defaultdict", "OrderedDict", "WeakKeyDictionary", "WeakValueDictionary", "set", "list",
+             "deque", "WeakSet", "Counter"))
         for t in tgts:
             if isinstance(t, ast.Name) and is_map and t.id not in TABLES:
                 module_names.add(t.id)
@@ -74,7 +75,8 @@ def analyse(path: str) -> Dict[str, Any]:
                         clears.add(owner)
                     elif f.attr == "clear" and owner in module_names:
                         clears.add(owner)
-                    elif f.attr in ("setdefault", "update", "__setitem__") and owner in module_names:
+                    elif f.attr in ("setdefault", "update", "__setitem__", "add", "append", "extend", "insert",
+                                    "appendleft") and owner in module_names:
                         stores.add(owner)
                     calls.add(f.attr)
             if isinstance(n, ast.Name) and n.id in TABLES:
@@ -307,6 +309,21 @@ def search_generic(mc: Dict[str, Any], N: int, L: int, timeout_ms: int) -> Dict[
                 after_q = z3.If(z3.And(touched(u), keep == -1), ver[t][u], keep)
                 S.add(st[t + 1][c][u] == z3.If(decl, after_d, z3.If(tran, after_t, after_q)))
                 stale.append((t, c, u, z3.And(q, touched(u), keep != -1, keep != ver[t][u])))
+    # the key such a store is looked up under is not known: an entry made by a query on (j, i) may
+    # be the one a query on (i, j) finds (a key that forgets the direction)
+    pairs = [(i, j) for i in range(N) for j in range(N) if i != j]
+    filled = [{c: {pq: z3.Bool(f"filled{t}_{c}_{pq[0]}{pq[1]}") for pq in pairs} for c in caches} for t in range(L + 1)]
+    for c in caches:
+        S.add(*[z3.Not(filled[0][c][pq]) for pq in pairs])
+    for t in range(L):
+        decl, q, tran = kind[t] == 0, kind[t] == 1, kind[t] == 2
+        for c in caches:
+            cleared = z3.Or(z3.And(decl, z3.BoolVal(mc["generic_cleared"][c]["equate"])),
+                            z3.And(tran, z3.BoolVal(mc["generic_cleared"][c]["translate"])))
+            for (i, j) in pairs:
+                here = z3.And(q, a[t] == i, b[t] == j)
+                S.add(filled[t + 1][c][(i, j)] == z3.If(cleared, False, z3.Or(filled[t][c][(i, j)], here)))
+                stale.append((t, c, i, z3.And(here, filled[t][c][(j, i)], z3.Not(filled[t][c][(i, j)]))))
     if not stale:
         return {"result": "unsat", "N": N, "L": L, "solver_s": 0.0, "state_vars": 0}
     S.add(z3.Or(*[s_ for *_, s_ in stale]))
@@ -352,6 +369,7 @@ import json, sys
 import measured
 from measured import Length, conversions
 SHAPE = "length"
+ONE_WAY = None
 def units(tag):
     from measured import Area, Force, Energy
     from measured.si import Meter, Newton, Second, Kilogram, Joule
@@ -363,6 +381,11 @@ def units(tag):
     if SHAPE == "force":
         return [Force.unit(f"c08-{tag}-0", f"c08-{tag}-0"), Pound * Foot / Second**2, Newton,
                 Force.unit(f"c08-{tag}-3", f"c08-{tag}-3")]
+    if SHAPE.startswith("oneway"):   # shipped units the planner converts in one direction only
+        import measured.systems
+        a_, b_ = [eval(c, {"measured": measured}) for c in ONE_WAY]
+        pair = [a_, b_] if SHAPE == "oneway" else [b_, a_]
+        return pair + [Length.unit(f"c08-{tag}-2", f"c08-{tag}-2"), Length.unit(f"c08-{tag}-3", f"c08-{tag}-3")]
     if SHAPE == "energy":
         return [Energy.unit(f"c08-{tag}-0", f"c08-{tag}-0"), Kilogram * Foot**2 / Second**2, Joule,
                 Energy.unit(f"c08-{tag}-3", f"c08-{tag}-3")]
@@ -385,13 +408,14 @@ def run(history, tag):
 '''
 
 
-SHAPES = ("length", "area", "force", "energy")
+SHAPES = ("length", "area", "force", "energy", "oneway", "oneway-rev")
+ONE_WAY_CODES: List[Any] = []
 
 
 def replay(history: List[Tuple], shape: str = "length") -> str:
     return f"""import subprocess, json
 HISTORY = {history!r}
-LIB = {REPLAY_LIB.replace('SHAPE = "length"', 'SHAPE = ' + repr(shape))!r}
+LIB = {REPLAY_LIB.replace('SHAPE = "length"', 'SHAPE = ' + repr(shape)).replace('ONE_WAY = None', 'ONE_WAY = ' + repr(ONE_WAY_CODES[0] if ONE_WAY_CODES else None))!r}
 def fresh_process(hist, tag):
     code = LIB + "\\nprint(json.dumps(run(" + repr(hist) + ", " + repr(tag) + ")))"
     p = subprocess.run([sys.executable, "-c", code], capture_output=True, text=True)
@@ -608,7 +632,12 @@ def main(tier: str, selftest_cases: int = 0) -> int:
             from concurrent.futures import ThreadPoolExecutor
 
             os.makedirs(report.REPLAY_DIR, exist_ok=True)
-            jobs = [(c, h, shape) for c, h in r["histories"] for shape in SHAPES]
+            if not ONE_WAY_CODES:
+                from props import c12
+
+                ONE_WAY_CODES.extend(c12.one_way_pairs(2)[:1])
+            shapes = [sh for sh in SHAPES if not sh.startswith("oneway") or ONE_WAY_CODES]
+            jobs = [(c, h, shape) for c, h in r["histories"] for shape in shapes]
 
             def probe(job: Tuple) -> bool:
                 c, h, shape = job
@@ -625,9 +654,10 @@ def main(tier: str, selftest_cases: int = 0) -> int:
             for (c, h, shape), ok in zip(jobs, oks):
                 if ok:
                     replayed += 1
-                    rep.violation(f"C08:stale-{c}", f"history {h} on {shape} units: the cached {c} is not "
-                                  f"cleared by every writer of the tables and the last query answers "
-                                  f"differently from a fresh process", replay(h, shape))
+                    rep.violation(f"C08:stale-{c}", f"history {h} on {shape} units: what {c} keeps between calls "
+                                  f"(cleared by {[w for w in mc['writers'] if mc['generic_cleared'][c][w]] or 'no writer'}"
+                                  f") makes the last query answer differently from a fresh process",
+                                  replay(h, shape))
                     verdict = "sat"
                     break
             rep.ob(verdict, name + ("" if verdict == "sat" else f" (stale read possible in the model; none of "
